@@ -503,6 +503,71 @@ func runC18(r *Run) {
 		}
 	})
 
+	r.rule("R19", "no map order reaches the wire: the request is a deterministic function of the configuration, so wherever the client package walks a Go map (Cookie, PathParam, …) it does not, inside that walk, call a visitor it was handed or write into the fasthttp request — the keys are collected and put in a fixed order first; a direct `for k, v := range m { f(k, v) }` makes the order of the cookies in the Cookie header line differ from one request to the next (E7 map order)", func() {
+		nLoops, nBad := 0, 0
+		r.P.AllFuncs("client", func(f *ssa.Function) {
+			if p := f.Parent(); p != nil && strings.Contains(p.Signature.Results().String(), "iter.Seq") {
+				return // an iterator handed to the caller (Cookies(), PathParams(), …): read access, not what is sent
+			}
+			for _, b := range f.Blocks {
+				for _, in := range b.Instrs {
+					nx, ok := in.(*ssa.Next)
+					if !ok || nx.IsString {
+						continue
+					}
+					rg, ok := nx.Iter.(*ssa.Range)
+					if !ok {
+						continue
+					}
+					if _, isMap := rg.X.Type().Underlying().(*types.Map); !isMap {
+						continue
+					}
+					nLoops++
+					// the loop body: blocks dominated by the successor taken while the iterator has elements
+					var body *ssa.BasicBlock
+					if iff, ok := b.Instrs[len(b.Instrs)-1].(*ssa.If); ok {
+						_ = iff
+						body = b.Succs[0]
+					}
+					if body == nil {
+						continue
+					}
+					for _, bb := range f.Blocks {
+						if bb != body && !dom(body, bb) {
+							continue
+						}
+						for _, bi := range bb.Instrs {
+							ci, ok := bi.(ssa.CallInstruction)
+							if !ok {
+								continue
+							}
+							cc := ci.Common()
+							cn := calleeName(cc)
+							callback := false
+							switch cc.Value.(type) {
+							case *ssa.Parameter, *ssa.FreeVar:
+								callback = !cc.IsInvoke()
+							}
+							wire := strings.Contains(cn, "fasthttp.RequestHeader).") || strings.Contains(cn, "fasthttp.Request).") || strings.Contains(cn, "fasthttp.Args).") || strings.Contains(cn, "fasthttp.URI).")
+							if callback || wire {
+								nBad++
+								what := "calls the visitor it was handed"
+								if wire {
+									what = "writes into the request (" + cn[strings.LastIndex(cn, ".")+1:] + ")"
+								}
+								r.bad(short(f.String())+":map-walk:fixed-order", r.pos(bi), "inside a walk over a Go map the function "+what+": the order of the pairs on the wire follows the map's iteration order, which Go randomises — eight request cookies give a different Cookie header line on almost every request")
+							}
+						}
+					}
+				}
+			}
+		})
+		r.atLeast("walks over a Go map in the client package", nLoops, 2)
+		if nBad == 0 {
+			r.ok("map-walks:fixed-order", "", fmt.Sprintf("%d walks over a Go map; none calls a visitor or writes the request inside the walk", nLoops))
+		}
+	})
+
 	r.rule("R18", "cookie names are compared byte for byte: `sid` and `SID` are two cookies (RFC 6265 §5.3 compares names exactly); nowhere in the jar is the name of a stored cookie (fasthttp.Cookie.Key) compared under case folding — a folded comparison makes the second name overwrite the first in place, the jar then returns one cookie where the server set two (E5: no fold on a Key())", func() {
 		nExact, bad := 0, ""
 		r.P.AllFuncs("client", func(f *ssa.Function) {
